@@ -2,6 +2,7 @@ package main
 
 import (
 	"crypto/sha256"
+	"encoding/hex"
 	"fmt"
 	"math/bits"
 	"strings"
@@ -15,24 +16,36 @@ import (
 // hash table.
 type rec struct {
 	seen  map[string]bool
-	pairs [][2][]byte
+	pairs []pair // preimage parts, digest
+}
+
+type pair struct {
+	parts [][]byte
+	d     []byte
 }
 
 func newRec() *rec { return &rec{seen: map[string]bool{}} }
 
-func (r *rec) H(x []byte) []byte {
+func (r *rec) hp(parts ...[]byte) []byte {
+	var x []byte
+	for _, p := range parts {
+		x = append(x, p...)
+	}
 	d := sha256.Sum256(x)
 	if !r.seen[string(x)] {
 		r.seen[string(x)] = true
-		r.pairs = append(r.pairs, [2][]byte{append([]byte{}, x...), d[:]})
+		cp := make([][]byte, len(parts))
+		for i, p := range parts {
+			cp[i] = append([]byte{}, p...)
+		}
+		r.pairs = append(r.pairs, pair{cp, d[:]})
 	}
 	return d[:]
 }
 
-func (r *rec) leaf(x []byte) []byte { return r.H(append([]byte{0}, x...)) }
-func (r *rec) inner(a, b []byte) []byte {
-	return r.H(append(append([]byte{1}, a...), b...))
-}
+func (r *rec) H(x []byte) []byte       { return r.hp(x) }
+func (r *rec) leaf(x []byte) []byte     { return r.hp([]byte{0}, x) }
+func (r *rec) inner(a, b []byte) []byte { return r.hp([]byte{1}, a, b) }
 
 func splitPoint(n uint64) uint64 {
 	k := uint64(1) << uint(bits.Len64(n)-1)
@@ -115,25 +128,100 @@ func (r *rec) verifyTx(p *proofJ, tx []byte) {
 	}
 }
 
-func (r *rec) coq() string {
+func (r *rec) coq(t *tb) string {
 	items := make([]string, len(r.pairs))
 	for i, p := range r.pairs {
-		items[i] = "(" + coqout.Bytes(p[0]) + ", " + coqout.Bytes(p[1]) + ")"
+		var ps []string
+		for _, part := range p.parts {
+			if len(part) > 0 {
+				ps = append(ps, t.B(part))
+			}
+		}
+		pre := "(@nil N)"
+		if len(ps) > 0 {
+			pre = "(" + strings.Join(ps, " ++ ") + ")"
+		}
+		items[i] = "(" + pre + ", " + t.B(p.d) + ")"
 	}
 	return coqout.List(items)
+}
+
+// tb builds one case term: byte strings of 16 bytes or more are let-bound
+// once (digests recur in tables, proofs and preimages) and written as
+// primitive-integer words (Stateless/Hex.v).
+type tb struct {
+	names map[string]string
+	order []string // names in definition order
+	lits  []string // literal of each name
+}
+
+func newTB() *tb { return &tb{names: map[string]string{}} }
+
+func hbLit(b []byte) string {
+	if len(b) == 0 {
+		return "(@nil N)"
+	}
+	if len(b) == 1 {
+		return fmt.Sprintf("[%d]", b[0])
+	}
+	var ws []string
+	for i := 0; i < len(b); i += 7 {
+		j := i + 7
+		if j > len(b) {
+			j = len(b)
+		}
+		ws = append(ws, "0x"+hex.EncodeToString(b[i:j]))
+	}
+	return fmt.Sprintf("(hb %d [%s]%%uint63)", len(b), strings.Join(ws, ";"))
+}
+
+func (t *tb) B(b []byte) string {
+	if len(b) < 16 {
+		return hbLit(b)
+	}
+	if n, ok := t.names[string(b)]; ok {
+		return n
+	}
+	n := fmt.Sprintf("«%d»", len(t.names))
+	t.names[string(b)] = n
+	t.order = append(t.order, n)
+	t.lits = append(t.lits, hbLit(b))
+	return n
+}
+
+// names are written «k» in the term and renamed when the term is emitted.
+func (t *tb) rename(prefix, term string) string {
+	return strings.NewReplacer("«", prefix+"d", "»", "").Replace(term)
+}
+
+// wrap gives the self-contained form of a case: nested lets.
+func (t *tb) wrap(term string) string {
+	var sb strings.Builder
+	sb.WriteString("(")
+	for i, n := range t.order {
+		sb.WriteString("let " + n + " := " + t.lits[i] + " in\n")
+	}
+	sb.WriteString(term + ")")
+	return t.rename("", sb.String())
+}
+
+func (t *tb) list(bs [][]byte) string {
+	items := make([]string, len(bs))
+	for i, b := range bs {
+		items[i] = t.B(b)
+	}
+	return coqout.List(items)
+}
+func (t *tb) opt(b []byte) string {
+	if b == nil {
+		return "None"
+	}
+	return "(Some " + t.B(b) + ")"
 }
 
 // ---------- Coq term helpers ----------
 func zs(v int64) string { return fmt.Sprintf("(%d)%%Z", v) }
 func ns(v uint64) string { return fmt.Sprintf("%d", v) }
-func bytesList(bs [][]byte) string {
-	items := make([]string, len(bs))
-	for i, b := range bs {
-		items[i] = coqout.Bytes(b)
-	}
-	return coqout.List(items)
-}
-func optBytes(b []byte) string { return coqout.OptBytes(b, b != nil) }
 
 type proofJ struct {
 	Total    int64    `json:"total"`
@@ -142,14 +230,14 @@ type proofJ struct {
 	Aunts    [][]byte `json:"aunts"`
 }
 
-func (p *proofJ) coq() string {
-	return fmt.Sprintf("(mkProof %s %s %s %s)", zs(p.Total), zs(p.Index), coqout.Bytes(p.LeafHash), bytesList(p.Aunts))
+func (p *proofJ) coq(t *tb) string {
+	return fmt.Sprintf("(mkProof %s %s %s %s)", zs(p.Total), zs(p.Index), t.B(p.LeafHash), t.list(p.Aunts))
 }
-func optProof(p *proofJ) string {
+func optProof(t *tb, p *proofJ) string {
 	if p == nil {
 		return "None"
 	}
-	return "(Some " + p.coq() + ")"
+	return "(Some " + p.coq(t) + ")"
 }
 
 func merkleVerdict(err error) string {
